@@ -30,10 +30,10 @@ fn connect(src: IpAddr, port: u16) -> Option<TcpStream> {
     let domain = if src.is_ipv4() { socket2::Domain::IPV4 } else { socket2::Domain::IPV6 };
     let s = socket2::Socket::new(domain, socket2::Type::STREAM, None).ok()?;
     s.bind(&SocketAddr::new(src, 0).into()).ok()?;
-    s.connect_timeout(&dst.into(), Duration::from_secs(2)).ok()?;
+    s.connect_timeout(&dst.into(), Duration::from_secs(20)).ok()?;
     let s: TcpStream = s.into();
     s.set_nodelay(true).ok()?;
-    s.set_read_timeout(Some(Duration::from_millis(3000))).ok()?;
+    s.set_read_timeout(Some(Duration::from_millis(500))).ok()?;
     Some(s)
 }
 
@@ -47,14 +47,16 @@ pub fn read_response(s: &mut TcpStream) -> Reply {
     let mut buf: Vec<u8> = Vec::new();
     let mut tmp = [0u8; 8192];
     let t0 = Instant::now();
+    let patience = crate::net::patience();
     let head_end;
     loop {
         if let Some(p) = buf.windows(4).position(|w| w == b"\r\n\r\n") { head_end = p + 4; break; }
-        if t0.elapsed() > Duration::from_secs(4) { return Reply::None(format!("timeout-after-{}-bytes", buf.len())); }
+        if t0.elapsed() > patience { crate::net::note_timeout(); return Reply::None(format!("timeout-after-{}-bytes", buf.len())); }
         match s.read(&mut tmp) {
             Ok(0) => return Reply::None(format!("closed-after-{}-bytes", buf.len())),
             Ok(n) => buf.extend_from_slice(&tmp[..n]),
-            Err(_) => return Reply::None(format!("timeout-after-{}-bytes", buf.len())),
+            Err(e) if matches!(e.kind(), std::io::ErrorKind::WouldBlock | std::io::ErrorKind::TimedOut | std::io::ErrorKind::Interrupted) => {}
+            Err(_) => return Reply::None(format!("closed-after-{}-bytes", buf.len())),
         }
     }
     let head = String::from_utf8_lossy(&buf[..head_end]).to_string();
@@ -64,10 +66,11 @@ pub fn read_response(s: &mut TcpStream) -> Reply {
     let cl_num: Option<usize> = cl.as_ref().and_then(|v| v.parse().ok());
     let Some(cl_num) = cl_num else { return Reply::None(format!("bad-content-length-{:?}", cl)); };
     while buf.len() < head_end + cl_num {
-        if t0.elapsed() > Duration::from_secs(4) { return Reply::None(format!("body-cut-short-{}-of-{}", buf.len() - head_end, cl_num)); }
+        if t0.elapsed() > patience { crate::net::note_timeout(); return Reply::None(format!("body-cut-short-{}-of-{}", buf.len() - head_end, cl_num)); }
         match s.read(&mut tmp) {
             Ok(0) => return Reply::None(format!("body-cut-short-{}-of-{}", buf.len() - head_end, cl_num)),
             Ok(n) => buf.extend_from_slice(&tmp[..n]),
+            Err(e) if matches!(e.kind(), std::io::ErrorKind::WouldBlock | std::io::ErrorKind::TimedOut | std::io::ErrorKind::Interrupted) => {}
             Err(_) => return Reply::None(format!("body-cut-short-{}-of-{}", buf.len() - head_end, cl_num)),
         }
     }
